@@ -320,6 +320,7 @@ FEATURES = [
     "class A { constructor(x){ this.x=x } get dbl(){ return this.x*2 } set dbl(v){ this.x=v/2 } static make(x){ return new this(x) } toString(){ return 'A('+this.x+')' } } class B extends A { constructor(x){ super(x+K) } get dbl(){ return super.dbl+1 } toString(){ return 'B'+super.toString() } } const b=B.make(J); b.dbl=10; out(b.x, b.dbl, String(b), b instanceof A, Object.getPrototypeOf(B)===A, B.name, typeof A);",
     "function Fn(){ return new.target === undefined ? 'call' : (new.target === Fn ? 'new' : 'sub') } class Base { constructor(){ this.k = new.target.name } } class Der extends Base {} out(Fn(), new Fn() instanceof Fn, new Der().k, new Base().k, Reflect.construct(Fn, [], Der) instanceof Der, K);",
     "const lg=[]; class SO { static { lg.push('b1', SO.x); SO.x = (SO.x|0) + K; } static x = J; static { SO.x += 1; lg.push('b2', SO.x); } static y = SO.x * 2; static nm = SO.name; static { lg.push(this === SO, SO.y); } } out(lg, SO.x, SO.y, SO.nm);",
+    "const po={x:1}; (po.x) += K; (po.x) = po.x + 1; out(po.x);",
     "class P { #v=K; static #count=0; static n(){ return P.#count } constructor(){ P.#count++ } get v(){ return this.#v } inc(){ this.#v++; return this } #hid(){ return this.#v*J } pub(){ return this.#hid() } static has(o){ return #v in o } } const p=new P().inc().inc(); new P(); out(p.v, p.pub(), P.n(), P.has(p), P.has({}));",
     "class F { a=K; b=this.a+J; static s=S; ['c'+'d']=1; m=()=>this.a } const f=new F(); out(f, F.s, f.m.call(null), Object.keys(f));",
     "class E1 extends Error { constructor(m){ super(m); this.name='E1'; this.code=K } } try { throw new E1(S) } catch(e) { out(e instanceof E1, e instanceof Error, e.name, e.message, e.code, String(e), Object.prototype.toString.call(e)) }",
